@@ -23,7 +23,8 @@ CLAIMED = {
          "operators' closures equal the per-subscriber ReactiveX characterisation; machine = those pure machines is a per-run differential check. CREATION "
          "FUNCTIONS on the machine (SimCreate.lean): stdOp_sim_just / _empty / _error / _fromIter / _range / _never - for every well-encoded kernel and any ready "
          "world the machine run of stdOp K directly over the creation function equals K.run of the stream it denotes (any items, start, count, payload); "
-         "repeat / interval under any operator: Rx.Sim.stdOp_sim_repeat / _interval. The case language also has the scheduler-based sources and operators over "
+         "repeat / interval under any operator: Rx.Sim.stdOp_sim_repeat / _interval; SimCreateOps.lean: from_iter(ds).op on the machine = the operator's list "
+         "specification, one theorem per operator (map_fromIter .. buffer_fromIter), via fromIter_machine_spec. The case language also has the scheduler-based sources and operators over "
          "the DEFAULT scheduler (interval_d, timer_d, observe_on_d, subscribe_on_d), delay(0), endless iterators, empty source lists.",
          "§5 C02", "Lean 4 proof: kernel = list specification by induction, machine = kernel chain by simulation (chain_sim) + per-run four-way differential correspondence"),
  "C04": ("Theorems Rx.C04.* (C04k: error passthrough for every non-handler kernel, same payload, terminal last, items before the error delivered; "
@@ -35,7 +36,9 @@ CLAIMED = {
          "§5 C04", "Lean 4 proof: generic PassesErrors lemma + induction over attempts + machine refines the retry mirror + per-run correspondence"),
  "C05": ("Theorems Rx.C05.silent_forever, nothing_after_unsubscribe, unsubscribe_idempotent, is_subscribed_false_forever (generic over all machine "
          "programs) and Rx.C05c.* on the lock-level Observer LTS for the cross-thread clause (any number of threads, any interleaving). Tie: sequential "
-         "cases with unsubscribe at every position + C05 predicate on implementation logs; concurrent clause co-simulated under C19's scenarios.",
+         "cases with unsubscribe at every position + C05 predicate on implementation logs; concurrent clause co-simulated under C19's scenarios. Handles: "
+         "Rx.C05h.subUnsub_disarmed / _armed (copies of one Subscription share one armed flag; unsubscribe through any copy of a disarmed handle changes "
+         "nothing), tied to subscription.rs by the (subhandles n) step (clones and Using guards of one Subscription::new, teardown calls counted).",
          "§5 C05", "Lean 4 proof: closed-predicate induction over all machine programs + LTS invariant + per-run correspondence"),
  "C07": ("partial: (1) same-thread re-entrancy: the object machine models every guard that is alive across a call; every explored re-entrant history "
          "(callbacks emitting into / completing / unsubscribing the subject they are called from, through every operator) must end with status ok on "
